@@ -61,7 +61,17 @@ def pytype_of(v):
     if isinstance(v, Sym):
         return v.pytype
     if isinstance(v, Res):
-        return {"float": "float", "int": "int", "str": "str", "round": "int", "datetime": "datetime"}.get(v.op)
+        t = {"float": "float", "int": "int", "str": "str", "round": "int", "datetime": "datetime", "len": "int", "Decimal": "Decimal", "strptime": "datetime"}.get(v.op)
+        if t is None and getattr(v, "pytype", None):
+            return v.pytype
+        if t is None and v.op in ("Mult", "Add", "Sub", "Div", "Pow", "USub", "FloorDiv", "Mod") and v.args:
+            ts = [pytype_of(a) for a in v.args]
+            if any(x in (None, "str", "NoneType") or x not in ("int", "float", "Decimal", "bool") for x in ts):
+                return None
+            if v.op == "Div" and "Decimal" not in ts:
+                return "float"
+            return "Decimal" if "Decimal" in ts else "float" if "float" in ts else "int"
+        return t
     return type(v).__name__
 
 
@@ -441,6 +451,17 @@ class AbsEval(ConstEval):
                     obj.fields = [f_ for f_, _ in fields]
                 return obj
 
+    def may_raise(self, cls, node, text):
+        """record that the operation at `node` can raise `cls` for some value of its abstract operand, unless a handler of an enclosing try
+        (dynamically: across calls) covers the class"""
+        for names in self.__dict__.get("try_stack", []):
+            if _exc_matches(cls, list(names)):
+                return
+        log = self.__dict__.setdefault("may", [])
+        item = (cls, getattr(node, "lineno", 0), text)
+        if item not in log:
+            log.append(item)
+
     def regex_of(self, v, mod):
         """pattern string of a module-level compiled regex (an Opaque whose initialiser is `<...>compile(<constant pattern>)`)"""
         if isinstance(v, Opaque) and isinstance(v.node, (ast.Assign, ast.AnnAssign)) and isinstance(v.node.value, ast.Call) and "compile" in ast.unparse(v.node.value.func) \
@@ -527,6 +548,19 @@ class AbsEval(ConstEval):
                 raise SymbolicBranch(a0, node)
             if name == pytype_of(a0) and len(args) == 1:
                 return a0
+            # partial operations on abstract values: what they can raise for some value of their class (recorded unless a handler on the dynamic
+            # try stack covers it)
+            t0 = pytype_of(a0)
+            if name in ("float", "int") and t0 in ("str", None):
+                self.may_raise("ValueError", node, f"{name}() of wire text")
+            if name in ("int", "round") and t0 == "float":
+                self.may_raise("OverflowError", node, f"{name}() of a float that can be infinite ('inf' or a huge exponent in the transmitted text)")
+                self.may_raise("ValueError", node, f"{name}() of a float that can be NaN")
+            if name == "Decimal" and t0 in ("str", None):
+                self.may_raise("InvalidOperation", node, "Decimal() of wire text")
+            if name == "int" and t0 == "Decimal":
+                self.may_raise("OverflowError", node, "int() of a Decimal that can be infinite")
+                self.may_raise("ValueError", node, "int() of a Decimal that can be NaN")
             return _typed(Res(name, *args), {"Decimal": "Decimal", "abs": pytype_of(a0), "round": "int" if len(args) == 1 else "float"}.get(name, name))
         if name in ("float", "int") and args and (a0 is None or isinstance(a0, AObj)):
             raise AbsRaise("TypeError", f"{name}() of {a0!r}")
@@ -537,6 +571,8 @@ class AbsEval(ConstEval):
                 raise AbsRaise("TypeError", f"len() of {a0!r}")
             return NotImplemented
         if name == "datetime":
+            if any(is_abs(a) for a in args):
+                self.may_raise("ValueError", node, "datetime() of fields that can be out of range")
             return _typed(Res("datetime", *args, *[Res("kw:" + k, v) for k, v in sorted(kw.items())]), "datetime")
         if name in ("min", "max", "divmod", "pow") and any(is_abs(a) for a in args):
             return Res(name, *args)
@@ -563,8 +599,14 @@ class AbsEval(ConstEval):
                 raise AbsRaise("AssertionError")
             return
         if isinstance(s, ast.Try):
+            hn = tuple(n_ for h in s.handlers for n_ in ([ast.unparse(x).split(".")[-1] for x in (h.type.elts if isinstance(h.type, ast.Tuple) else [h.type])] if h.type is not None else ["BaseException"]))
+            stack = self.__dict__.setdefault("try_stack", [])
+            stack.append(hn)
             try:
-                self.exec_block(s.body, env, mod)
+                try:
+                    self.exec_block(s.body, env, mod)
+                finally:
+                    stack.pop()
             except AbsRaise as ex:
                 for h in s.handlers:
                     names = [ast.unparse(x).split(".")[-1] for x in (h.type.elts if isinstance(h.type, ast.Tuple) else [h.type])] if h.type is not None else ["BaseException"]
